@@ -681,3 +681,118 @@ Proof.
   destruct (material_built _ _ _ _ _ _ _ _ Ht D E) as (i & e & x & g & H1 & H2 & H3 & H4).
   exists mi, p, ii, i, e, x, g. auto.
 Qed.
+
+(* ------------------------------------------------------------------ the property sentence, packaged *)
+From PF Require Import Formats.GltfExtProofs Formats.GltfGlbProofs.
+
+(* One record per scene: every clause of the property that is proved of the model's document
+   ([to_summary (run sc)], payload [buf (run sc)]).  Field by field it mirrors the clauses [gltf_check]
+   evaluates on the implementation's documents (keys in brackets). *)
+Record doc_valid (sc : scene) : Prop := {
+  (* [buffer-count, buffer-length, payload-length, view-out-of-buffer, view-overlap] *)
+  dv_views :
+    let st := run sc in let s := to_summary st in
+    tiles 0 (s_views s) (b_written (st_b st)) /\ views_disjoint (s_views s) = true /\
+    forallb (view_ok [b_written (st_b st)]) (s_views s) = true /\
+    s_buffers s = (if 0 <? b_written (st_b st) then [b_written (st_b st)] else []) /\
+    len (buf st) = b_written (st_b st);
+  (* [accessor-out-of-view] *)
+  dv_accessors :
+    let s := to_summary (run sc) in
+    forallb (acc_ok (s_views s)) (s_accs s) = true /\
+    forall i a, nth_error (s_accs s) i = Some a ->
+      exists v, a_view a = Some (N.of_nat i) /\ nth_error (s_views s) i = Some v /\ a_off a = 0 /\
+                a_count a * a_k a * code_size (a_comp a) = v_len v;
+  (* [minmax-mismatch] *)
+  dv_minmax :
+    forall i a, nth_error (s_accs (to_summary (run sc))) i = Some a ->
+    exists ck, nth_error (b_chunks (st_b (run sc))) i = Some ck /\
+      decode_acc (s_views (to_summary (run sc))) (buf (run sc)) a = Some (expand (ck_data ck)) /\
+      (is_idx_comp (ck_comp ck) = true /\ a_min a = [] /\ a_max a = [] \/
+       is_idx_comp (ck_comp ck) = false /\
+       (a_min a, a_max a) = minmax_of (ck_comp ck) (ck_k ck) (run_elems (ck_data ck)));
+  (* [primitive-count, attribute-set (one direction), attribute-image, attribute-count-mismatch, index-image,
+     index-width, index-out-of-range, dangling-index (accessor references)] *)
+  dv_prims :
+    let st := run sc in let s := to_summary st in
+    forall gm, In gm (s_meshes s) ->
+    exists p mo ii, In mo (sc_models sc) /\ gm_prims gm = [p] /\ gp_idx p = Some ii /\
+      let m := mo_mesh mo in
+      (exists a, nth_error (s_accs s) (N.to_nat ii) = Some a /\
+                 a_comp a = (if attr_len m <=? 65535 then 5123 else 5125) /\ a_k a = 1 /\ a_count a = len (me_idx m) /\
+                 decode_acc (s_views s) (buf st) a = Some (map (fun i => [i]) (me_idx m))) /\
+      forall name ai, In (name, ai) (gp_attrs p) ->
+        exists k nv a, attr_of m k nv /\ name = gltf_name (fst nv) /\
+          nth_error (s_accs s) (N.to_nat ai) = Some a /\
+          a_comp a = comp_code (attr_comp (fst nv)) /\ a_k a = k /\ a_count a = attr_len m /\
+          decode_acc (s_views s) (buf st) a = Some (expand (snd nv));
+  (* [extension-undeclared] (inclusions; absence of duplicates is evaluator-only) *)
+  dv_exts :
+    let s := to_summary (run sc) in incl (all_ext_keys s) (s_used s) /\ incl (s_req s) (s_used s);
+  (* [node-count, node-name, node-trs, node-kind, primitive-mode, light-node, light-content, scene-roots] *)
+  dv_nodes :
+    let st := run sc in
+    exists mn, st_nodes st = mn ++ light_nodes 0 (sc_lights sc) /\
+      Forall2 (fun mo nd => exists mi p ii, node_doc st mo nd mi p ii) (filter live (sc_models sc)) mn /\
+      st_scene st = seqN (length (st_nodes st)) /\ st_lights st = map light_out (sc_lights sc);
+  (* [instances] *)
+  dv_instances :
+    let st := run sc in let s := to_summary st in
+    Forall2 (fun mo nd =>
+      match mo_inst mo with
+      | [] => gn_inst nd = None
+      | ins => exists t sc_ r at_ as_ ar,
+          gn_inst nd = Some [("TRANSLATION"%string, t); ("SCALE"%string, sc_); ("ROTATION"%string, r)] /\
+          In "EXT_mesh_gpu_instancing"%string (gn_exts nd) /\
+          nth_error (s_accs s) (N.to_nat t) = Some at_ /\ nth_error (s_accs s) (N.to_nat sc_) = Some as_ /\
+          nth_error (s_accs s) (N.to_nat r) = Some ar /\
+          (a_comp at_, a_k at_, a_count at_) = (5126, 3, len ins) /\
+          (a_comp as_, a_k as_, a_count as_) = (5126, 3, len ins) /\
+          (a_comp ar, a_k ar, a_count ar) = (5126, 4, len ins) /\
+          decode_acc (s_views s) (buf st) at_ = Some (map in_t ins) /\
+          decode_acc (s_views s) (buf st) as_ = Some (map in_s ins) /\
+          decode_acc (s_views s) (buf st) ar = Some (map in_r ins)
+      end) (filter live (sc_models sc)) (model_nodes sc);
+  (* [dedup-inconsistent] *)
+  dv_dedup :
+    forall mo1 nd1 mo2 nd2,
+    In (mo1, nd1) (combine (filter live (sc_models sc)) (model_nodes sc)) ->
+    In (mo2, nd2) (combine (filter live (sc_models sc)) (model_nodes sc)) ->
+    exists mi1 p1 ii1 mi2 p2 ii2,
+      node_doc (run sc) mo1 nd1 mi1 p1 ii1 /\ node_doc (run sc) mo2 nd2 mi2 p2 ii2 /\
+      (me_ptr (mo_mesh mo1) = me_ptr (mo_mesh mo2) -> gp_attrs p1 = gp_attrs p2 /\ gp_idx p1 = gp_idx p2) /\
+      (mi1 = mi2 <-> me_ptr (mo_mesh mo1) = me_ptr (mo_mesh mo2) /\ gp_mat p1 = gp_mat p2) /\
+      (forall pm1 pm2, mo_mat mo1 = Some pm1 -> mo_mat mo2 = Some pm2 ->
+         (gp_mat p1 = gp_mat p2 <-> mat_equal pm1 pm2 = true)) /\
+      (mo_mat mo1 = None -> gp_mat p1 = None);
+  (* [material-content]: scalar fields, colours, alpha (the entry is AddMaterial of an equal material);
+     the texture slots' content is evaluator-only *)
+  dv_materials :
+    forall mo nd pm, In (mo, nd) (combine (filter live (sc_models sc)) (model_nodes sc)) -> mo_mat mo = Some pm ->
+    exists mi p ii i e x g, node_doc (run sc) mo nd mi p ii /\ gp_mat p = Some i /\ mat_equal e pm = true /\
+      nth_error (s_mats (to_summary (run sc))) (N.to_nat i) = Some g /\ g = fst (build_material e x);
+  (* [glb-header, glb-total-length, glb-chunk-length, glb-trailing-bytes, glb-chunks, glb-padding] for any JSON text *)
+  dv_glb :
+    forall json, glb_total (len json) (len (buf (run sc))) < 4294967296 ->
+    len (glb_frame json (buf (run sc))) = glb_total (len json) (len (buf (run sc))) /\
+    glb_parse (glb_frame json (buf (run sc))) =
+      Some (json ++ repeat 32 (N.to_nat (pad4 (len json))),
+            if len (buf (run sc)) =? 0 then None
+            else Some (buf (run sc) ++ repeat 0 (N.to_nat (pad4 (len (buf (run sc))))))) }.
+
+Theorem model_doc_valid sc : scene_ok sc -> scene_ptr_ok sc -> doc_valid sc.
+Proof.
+  intros Hok Hp. constructor.
+  - pose proof (views_tile sc) as H. cbv zeta in *. intuition.
+  - apply accessors_fit, Hok.
+  - intros i a Ha. destruct (payload_decodes sc Hok i a Ha) as (ck & E1 & E2 & E3).
+    destruct (minmax_declared sc i a Ha) as (ck' & E1' & Hm). rewrite E1 in E1'. apply some_inj in E1'. subst ck'.
+    exists ck. auto.
+  - apply prims_carry, Hok.
+  - apply ext_declared_run.
+  - apply nodes_of_run, Hp.
+  - apply instances_run; assumption.
+  - apply dedup_run, Hp.
+  - apply material_run, Hp.
+  - intros json H. split; [apply glb_frame_length|apply glb_parse_frame, H].
+Qed.
